@@ -11,6 +11,7 @@
 -/
 import Fca.Lemmas.PosetAlgebraTotal
 import Fca.Props.C09
+import Fca.Lemmas.PosetAlgebraChain
 namespace Fca.C10
 open Fca Fca.Poset Fca.Poset.Fresh Fca.C09
 
@@ -91,6 +92,66 @@ theorem combine_history_independent (henv : Env leq ord U) (op : SetOp) (same : 
     · exact hUb x h'
   rw [← he]
   exact history_independent henv ops r (combine_inv op same a b r ha hb h) hU hin hok
+
+/-- FULL.  Operands with a history: whatever valid histories (queries, `fill_up_*`, `add` with or without cache
+    filling, `del`, `remove`, in any order) the two operands went through - starting from any states satisfying the
+    invariant, e.g. freshly constructed posets or results of earlier operators - the result of an operator on them
+    satisfies the invariant and has the combination of the operands' *current* elements. -/
+theorem combine_after_histories (henv : Env leq ord U) (op : SetOp) (same : Bool) (a0 b0 r : St α)
+    (opsA opsB : List (Op α)) (ha : Inv leq a0) (hb : Inv leq b0)
+    (hUa : ∀ x ∈ a0.elems, U x) (hUb : ∀ x ∈ b0.elems, U x) (hinA : OpsIn U opsA) (hinB : OpsIn U opsB)
+    (hokA : opsOk a0.elems a0.useCache opsA = true) (hokB : opsOk b0.elems b0.useCache opsB = true)
+    (h : combine leq op same (run leq ord a0 opsA).1 (run leq ord b0 opsB).1 = .ok r) :
+    Inv leq r ∧ r.elems = combineElems op (nextAll a0.elems opsA) (nextAll b0.elems opsB) ∧
+      (∀ x ∈ r.elems, U x) := by
+  obtain ⟨ia, ea, _, ua⟩ := inv_run henv opsA a0 ha hUa hinA hokA
+  obtain ⟨ib, eb, _, ub⟩ := inv_run henv opsB b0 hb hUb hinB hokB
+  obtain ⟨he, _, _⟩ := combine_shape h
+  refine ⟨combine_inv op same _ _ r ia ib h, by rw [he, ea, eb], ?_⟩
+  intro x hx
+  rw [he] at hx
+  rcases combineElems_sub op _ _ x hx with h' | h'
+  · exact ua x h'
+  · exact ub x h'
+
+/-- FULL.  Chained operations with anything in between: `(a ⊕₁ b)`, then any valid history on that result, then
+    `⊕₂ c` (with `c` after a history of its own): the final result answers every later history as a freshly built
+    poset over its elements. -/
+theorem combine_chain (henv : Env leq ord U) (op1 op2 : SetOp) (a b c r1 r2 : St α)
+    (mid opsC later : List (Op α)) (ha : Inv leq a) (hb : Inv leq b) (hc : Inv leq c)
+    (hUa : ∀ x ∈ a.elems, U x) (hUb : ∀ x ∈ b.elems, U x) (hUc : ∀ x ∈ c.elems, U x)
+    (h1 : combine leq op1 true a b = .ok r1)
+    (hinM : OpsIn U mid) (hokM : opsOk r1.elems r1.useCache mid = true)
+    (hinC : OpsIn U opsC) (hokC : opsOk c.elems c.useCache opsC = true)
+    (h2 : combine leq op2 true (run leq ord r1 mid).1 (run leq ord c opsC).1 = .ok r2)
+    (hinL : OpsIn U later) (hokL : opsOk r2.elems r2.useCache later = true) :
+    (run leq ord r2 later).2 = runFresh leq r2.elems later := by
+  have hr1 : Inv leq r1 := combine_inv op1 true a b r1 ha hb h1
+  have hU1 : ∀ x ∈ r1.elems, U x := by
+    obtain ⟨he, _, _⟩ := combine_shape h1
+    intro x hx
+    rw [he] at hx
+    rcases combineElems_sub op1 _ _ x hx with h' | h'
+    · exact hUa x h'
+    · exact hUb x h'
+  obtain ⟨hinv, _, hU2⟩ := combine_after_histories henv op2 true r1 c r2 mid opsC hr1 hc hU1 hUc hinM hinC hokM hokC h2
+  exact history_independent henv later r2 hinv hU2 hinL hokL
+
+/-- FULL.  After `r = a ⊕ b` the three posets are independent: any valid histories (queries and mutations) on the
+    result and on the two operands - in the model three separate values, so every interleaving of the three
+    histories is the same three runs - are each answered as by a freshly built poset over that object's own
+    current elements.  (That the real result shares no mutable cache object with its operands is what the harness
+    checks on the implementation.) -/
+theorem combine_objects_independent (henv : Env leq ord U) (op : SetOp) (a b r : St α)
+    (opsR opsA opsB : List (Op α)) (ha : Inv leq a) (hb : Inv leq b)
+    (hUa : ∀ x ∈ a.elems, U x) (hUb : ∀ x ∈ b.elems, U x) (h : combine leq op true a b = .ok r)
+    (hinR : OpsIn U opsR) (hinA : OpsIn U opsA) (hinB : OpsIn U opsB)
+    (hokR : opsOk r.elems r.useCache opsR = true) (hokA : opsOk a.elems a.useCache opsA = true)
+    (hokB : opsOk b.elems b.useCache opsB = true) :
+    (run leq ord r opsR).2 = runFresh leq (combineElems op a.elems b.elems) opsR ∧
+      (run leq ord a opsA).2 = runFresh leq a.elems opsA ∧ (run leq ord b opsB).2 = runFresh leq b.elems opsB :=
+  ⟨combine_history_independent henv op true a b r ha hb hUa hUb h opsR hinR hokR,
+   history_independent henv opsA a ha hUa hinA hokA, history_independent henv opsB b hb hUb hinB hokB⟩
 
 end
 
